@@ -1,25 +1,48 @@
 """Ackermann abstraction of selected uninterpreted (spec) functions.
 
-Every application f(args) of a listed function is replaced by a fresh constant, innermost first, and functional
-consistency (args equal => constants equal) is added for every pair of applications of the same function.  The
-abstracted problem is equisatisfiable with the original *for the listed functions being uninterpreted*; we only use
+Every application f(args) of a listed function is replaced by a fresh constant, innermost first, and (optionally)
+functional consistency (args equal => constants equal) is added for every pair of applications of the same function.
+The abstracted problem is equisatisfiable with the original *for the listed functions being uninterpreted*; we only use
 the direction that matters for soundness: if the abstraction is unsatisfiable, so is the original (the original is
 the instance "constant := f(args)").  A model of the abstraction is never reported as a refutation.
 
 Why: z3's sequence solver gets lost when word equations are stated over applications whose *arguments* are themselves
 complicated sequence terms (extracts of list heads ...); after abstraction the same equations are over constants.
+
+Canonicalisation (sound, it only identifies things the hypotheses make equal): applications whose arguments are equal
+after z3.simplify, or are identified by a union-find over the TOP-LEVEL equalities of the hypotheses, share one
+constant, so most functional-consistency instances hold syntactically.
+
+`heavy=True` additionally abstracts every sequence extract / nth / array select / store / datatype accessor or
+recogniser application (interpreted, but here treated as opaque: again only a weakening of the hypotheses).  What is
+left is linear arithmetic + word equations over constants: the "proof script" stage, which succeeds when the sidecar
+has supplied (and separately proved) the bridging facts.
 """
 import z3
 
+_HEAVY = set()
+for _n in ('Z3_OP_SEQ_EXTRACT', 'Z3_OP_SEQ_NTH', 'Z3_OP_SEQ_AT', 'Z3_OP_SELECT', 'Z3_OP_STORE', 'Z3_OP_DT_ACCESSOR',
+           'Z3_OP_DT_IS', 'Z3_OP_DT_RECOGNISER', 'Z3_OP_SEQ_NTH_I', 'Z3_OP_SEQ_NTH_U'):
+    if hasattr(z3, _n):
+        _HEAVY.add(getattr(z3, _n))
 
-def _apps(roots, names):
+
+def _is_target(x, names, heavy):
+    if not z3.is_app(x) or x.num_args() == 0:
+        return False
+    k = x.decl().kind()
+    if k == z3.Z3_OP_UNINTERPRETED:
+        return x.decl().name() in names
+    return heavy and k in _HEAVY
+
+
+def _apps(roots, names, heavy):
     seen, order, stack = set(), [], [(r, False) for r in roots]
     while stack:
         x, done = stack.pop()
         i = x.get_id()
         if done:
-            if z3.is_app(x) and x.num_args() > 0 and x.decl().kind() == z3.Z3_OP_UNINTERPRETED \
-                    and x.decl().name() in names:
+            if _is_target(x, names, heavy):
                 order.append(x)          # post-order: arguments' applications come first
             continue
         if i in seen:
@@ -34,19 +57,18 @@ def _apps(roots, names):
     return order
 
 
-def abstract(pc, goal, names, congruence=True):
+def abstract(pc, goal, names, congruence=True, heavy=False):
     """-> (pc', goal') or None when nothing to abstract / a listed function occurs under a quantifier"""
     names = set(names)
     roots = list(pc) + [goal]
     for r in roots:
         if _has_quantified_use(r, names):
             return None
-    apps = _apps(roots, names)
+        if heavy and has_quantifier(r):
+            return None
+    apps = _apps(roots, names, heavy)
     if not apps:
         return None
-    mapping, table, canon = [], {}, {}
-    # union-find over (simplified) terms related by TOP-LEVEL equalities of the hypotheses: arguments that such an
-    # equation identifies get the same constant (congruence closure restricted to facts that are literally there)
     parent, keep = {}, []
 
     def find(i):
@@ -62,29 +84,31 @@ def abstract(pc, goal, names, congruence=True):
         elif z3.is_eq(z) and not z3.is_bool(z.arg(0)):
             yield z
 
-    import os
-    for z in ([] if os.environ.get('ACK_NOUF') else pc):
+    for z in pc:
         for e in top_eqs(z):
             l, r = z3.simplify(e.arg(0)), z3.simplify(e.arg(1))
             keep.extend((l, r))
             a_, b_ = find(l.get_id()), find(r.get_id())
             if a_ != b_:
                 parent[a_] = b_
+    mapping, table, canon = [], {}, {}
     for n, t in enumerate(apps):
-        args = [z3.substitute(a, *mapping) if mapping else a for a in t.children()]
-        # applications whose arguments are equal after simplification (idx - 0 vs idx, select-over-store, ...) share
-        # one constant: most functional-consistency instances then hold syntactically
-        sargs = [z3.simplify(a) for a in args]
+        # key on the ORIGINAL arguments (simplified, modulo the top-level equalities)
+        sargs = [z3.simplify(a) for a in t.children()]
         keep.extend(sargs)
-        ck = (t.decl().name(),) + tuple(find(a.get_id()) for a in sargs)
+        fkey = t.decl().name() if t.decl().kind() == z3.Z3_OP_UNINTERPRETED else \
+            ('#%d' % t.decl().kind(), str(t.decl()))
+        ck = (fkey,) + tuple(find(a.get_id()) for a in sargs)
         hit = canon.get(ck)
         if hit is not None:
-            mapping.append((t, hit[0]))
+            mapping.append((t, hit))
             continue
         k = z3.Const(f'ack!{t.decl().name()}!{n}', t.sort())
-        canon[ck] = (k, [z3.simplify(a) for a in args])     # keep the simplified terms alive (ids are recycled)
+        canon[ck] = k
         mapping.append((t, k))
-        table.setdefault(t.decl().name(), []).append((args, k))
+        if congruence and t.decl().kind() == z3.Z3_OP_UNINTERPRETED:
+            args = [z3.substitute(a, *mapping[:-1]) if len(mapping) > 1 else a for a in t.children()]
+            table.setdefault(t.decl().name(), []).append((args, k))
     # simultaneous top-down substitution: outer applications are replaced as a whole
     mapping_rev = list(reversed(mapping))
     pc2 = [z3.substitute(z, *mapping_rev) for z in pc]
@@ -130,5 +154,32 @@ def _mentions(e, names):
         elif z3.is_app(x):
             if x.decl().kind() == z3.Z3_OP_UNINTERPRETED and x.decl().name() in names:
                 return True
+            stack.extend(x.children())
+    return False
+
+
+def flatten(assertions):
+    """top-level conjunctions split into their conjuncts"""
+    out, stack = [], list(reversed(assertions))
+    while stack:
+        z = stack.pop()
+        if z3.is_and(z):
+            stack.extend(reversed(z.children()))
+        else:
+            out.append(z)
+    return out
+
+
+def has_quantifier(e):
+    stack, seen = [e], set()
+    while stack:
+        x = stack.pop()
+        i = x.get_id()
+        if i in seen:
+            continue
+        seen.add(i)
+        if z3.is_quantifier(x):
+            return True
+        if z3.is_app(x):
             stack.extend(x.children())
     return False
